@@ -90,3 +90,22 @@ package fsim
 //@   callassert Write#1: @hashed bytes(arg1) == lastread(f)
 //@   callassert Encode#2: @sent bytes(unwrap(arg1)) == lastread(f)
 //@   callassert Encode#3: @digest bytes(unwrap(arg1)) == digest(absorbed(hash))
+
+// ---- download, owner side (C17): a chunk that was read is always sent (the "does not
+// fit" test after the index advanced can never fire, so no bytes of the file are
+// skipped), what is sent is what the latest Read delivered, and the index advances by it
+//@ func fsim.DownloadContents.sendData
+//@   params d producer
+//@   local err = extract1:call:cbor.Marshal#1 | extract1:call:io.Reader.Read#1 | extract1:call:io.Seeker.Seek#1
+//@   local messageBody = extract0:call:cbor.Marshal#1
+//@   local n = extract0:call:io.Reader.Read#1
+//@   props C17 C10(sweep)
+//@   sweep bounds,panic,make
+//@   assume queued(producer) != True()
+//@   requires @chunk len(d.chunk) <= 65535
+//@   callsites Read 1
+//@   callsites WriteChunk 1
+//@   callassert Marshal#1: @sent bytes(unwrap(arg0)) == lastread(d.Contents) && len(unwrap(arg0)) == n
+//@   callassert WriteChunk#1: @body u(arg2) == u(messageBody)
+//@   ensures @noskip ? err == nil && n > 0 ==> queued(producer) == True()
+//@   ensures @advance ? err == nil ==> d.index == old(d.index) + int64(n)
